@@ -224,6 +224,9 @@ def make_fn(sg, occs, reuse):
                 if closed and hit != set(idx):
                     conds.append(z3.BoolVal(False))
             e.post(tag + "every Hall-database operation maps a set onto itself and the orbit of one atom is the whole set", z3.And(*conds) if conds else True, mk("orbit-closure"))
+        if not reuse:
+            conv0, _, letters0, _, key0 = res[0]
+            e.validate_with(lambda env: S.validate_against_real(sg, dss[0], env, key0, conv0.get_scaled_positions(wrap=False), letters0))
         e.reach("H07:reuse" if reuse else "H07:single")
         e.sample({"space_group": sg, "occupations": [d["_occupation"] for d in dss], "sets": [[(s.wyckoff_letter, s.element, s.multiplicity) for s in r[1]] for r in res]})
     return fn
@@ -239,7 +242,7 @@ def orbit_bound(sg, tier):
 def run_group(arg):
     sg, tier = arg
     occs = S.occupations(sg, orbit_bound(sg, tier), S.ELEMENTS)
-    st = explore(make_fn(sg, occs, False), f"H07:sg{sg}", workers=1, timeout_ms=20000, budget_s=3000)
+    st = explore(make_fn(sg, occs, False), f"H07:sg{sg}", workers=1, timeout_ms=20000, budget_s=3000, validate_every=10)
     # analyzer reuse: pairs of single-orbit occupations (every ordered pair for small groups)
     occ1 = S.occupations(sg, 1, S.ELEMENTS)[: (6 if tier == "quick" else 12)]
     occ1 = occ1 + [[(l, 14)] + o for o in occ1[:2] for l in S.letters_of(sg)[:1] if S.nvars(sg, l) or o[0][0] != l][:2]
